@@ -20,7 +20,7 @@ def get_cov(noise):
     """
     num_coils = noise.shape[0]
     X = noise.reshape([num_coils, -1])
-    X -= np.mean(X, axis=-1, keepdims=True)
+    X = X - np.mean(X, axis=-1, keepdims=True)
     cov = np.matmul(X, X.T.conjugate())
 
     return cov
